@@ -143,8 +143,15 @@ PROPS = {
                     "gen_C16_dna_foreign", "gen_C16_number_bits", "gen_C16_number_dna", "gen_C16_fuel", "gen_C16_number_paths_agree"), gens=["C16", "GENOP"], tie="operation",
                 rule="all bit strings / DNA strings up to a bound, long random ones (64-bit boundary included), numbers "
                      "below the capacity of the width; non-trivial = non-zero value"),
-    "C17": dict(level="proof", theorems=T("C17", "C17_step_bounds", "C17_le_four", "C17_arcless", "C17_regular", "C17_certificate_upper", "C17_certificate_lower") + T("C17b", "C17_capStep_entry", "C17_settled_residual", "C17_stop_certificate", "C17_certificate_rat", "C17_stop_accuracy"),
-                not_proved=["the 1e-4 accuracy of the floating-point power iteration under the spectral-gap precondition (needs Perron-Frobenius convergence rates and an IEEE-754 error analysis): TESTED against the Collatz-Wielandt enclosure whose soundness is C17_certificate_*, and the float iteration is compared step by step with the exact-rational model"], gens=["C17"],
+    "C17": dict(level="proof", theorems=T("C17", "C17_step_bounds", "C17_le_four", "C17_arcless", "C17_regular", "C17_certificate_upper", "C17_certificate_lower") + T("C17b", "C17_capStep_entry", "C17_settled_residual", "C17_stop_certificate", "C17_certificate_rat", "C17_stop_accuracy") +
+                T("C17c", "C17F_rowSum", "C17F_stop_certificate", "C17F_stop_accuracy", "C17F_step_ok") +
+                T("FloatSpec", "roundPos_spec", "roundDouble_isB64", "roundDouble_nearest", "roundDouble_none_iff", "roundDouble_of_isB64"),
+                not_proved=["that the stopping rule fires within the iteration budget with a smallest entry delta large enough for 1e-4 "
+                            "under the spectral-gap precondition (needs Perron-Frobenius convergence RATES): TESTED against the "
+                            "Collatz-Wielandt enclosure whose soundness is C17_certificate_*. What the stopping rule certifies is proved "
+                            "both for exact arithmetic (C17_stop_accuracy) and for the double-precision computation the code performs "
+                            "(C17F_stop_accuracy, on Model/CapacityF.lean, which agrees with the NumPy run bit for bit on every "
+                            "iteration of every generated case); numpy.log2 and numpy.median are external"], gens=["C17"],
                 rule="graphs meeting the structural precondition x modes; non-trivial = non-integer spectral radius"),
     "C18": dict(level="proof", theorems=T("C18", "C18_shape", "C18_argsort_perm", "C18_bijection", "C18_digit_is_rank",
                                           "C18_distinct_none", "C18_distinct_perm", "C18_finite_table") +
